@@ -26,9 +26,7 @@ Qed.
 
 Lemma resume_legacy_agrees t c2 s2 sc ss r :
   views_agree_core sc ss -> resume_legacy t c2 s2 sc ss = Ok r ->
-  views_agree_but_alpn (rs_client r) (rs_server r) /\
-  (vw_alpn (rs_client r) = vw_alpn (rs_server r) \/
-   (rs_resumed r = true /\ vw_alpn (rs_server r) = None /\ vw_alpn (rs_client r) = vw_alpn sc)).
+  views_agree_core (rs_client r) (rs_server r).
 Proof.
   intros V H. unfold resume_legacy in H.
   destruct (client_offer c2) as [ch|] eqn:E0; [|discriminate H]. cbn [bind] in H.
@@ -39,16 +37,11 @@ Proof.
   destruct (server_pick_version (sv_set s2) ch) as [v|]; [|discriminate H]. cbn [bind] in H.
   destruct (if (v <? st_maxV (sv_set s2)) && ch_fallback ch then _ else _) as [[]|]; [|discriminate H]. cbn [bind] in H.
   destruct (match ch_rsl ch with Some r0 => _ | None => _ end) as [[]|]; [|discriminate H]. cbn [bind] in H.
-  assert (FULL : forall r', full_handshake c2 s2 = Ok r' ->
-            views_agree_but_alpn (rs_client r') (rs_server r') /\
-            (vw_alpn (rs_client r') = vw_alpn (rs_server r') \/
-             (rs_resumed r' = true /\ vw_alpn (rs_server r') = None /\ vw_alpn (rs_client r') = vw_alpn sc))).
-  { intros r' Hr. destruct (full_handshake_agrees _ _ _ Hr) as [_ A].
-    destruct (core_but_alpn _ _ A) as [B C]. split; [exact B|left; exact C]. }
+  assert (FULL : forall r', full_handshake c2 s2 = Ok r' -> views_agree_core (rs_client r') (rs_server r')).
+  { intros r' Hr. exact (proj2 (full_handshake_agrees _ _ _ Hr)). }
   destruct (3 <? v); [exact (FULL r H)|].
   destruct (negb (memZ (vw_suite ss) (server_suites s2 ch v))); [exact (FULL r H)|].
   destruct (negb (memZ (vw_suite ss) (ch_suites ch))); [discriminate H|].
-  destruct (t && _); [discriminate H|].
   destruct (match ch_sni ch with Some n => _ | None => false end); [discriminate H|].
   destruct (vw_etm ss && negb (ch_etm ch)); [discriminate H|].
   destruct (vw_ems ss && negb (ch_ems ch)); [discriminate H|].
@@ -59,31 +52,19 @@ Proof.
   match type of H with (if ?b then _ else _) = _ => destruct b; [discriminate H|] end.
   injection H as <-. cbn [rs_client rs_server rs_resumed].
   destruct V as [V1 [V2 [V3 [V4 [V5 [V6 [V7 [V8 [V9 V10]]]]]]]]].
-  unfold views_agree_but_alpn, resumed_view.
+  unfold views_agree_core, resumed_view.
   cbn [vw_version vw_suite vw_etm vw_ems vw_npn vw_sni vw_send_limit vw_recv_limit vw_secret vw_alpn].
-  split.
-  - repeat split; try assumption; try reflexivity.
-    + destruct (ch_rsl ch) as [r0|] eqn:R; destruct (st_rsl (sv_set s2)) as [m|]; cbn [fst snd];
-        try reflexivity; destruct (st_rsl (cl_set c2)); reflexivity.
-    + destruct (ch_rsl ch) as [r0|] eqn:R; destruct (st_rsl (sv_set s2)) as [m|]; cbn [fst snd];
-        try reflexivity; try (destruct (st_rsl (cl_set c2)); reflexivity).
-      rewrite (client_offer_rsl _ _ _ E0 R). reflexivity.
-  - destruct alpn as [p|]; [left; reflexivity|]. right. repeat split; reflexivity.
+  repeat split; try assumption; try reflexivity.
+  - destruct (ch_rsl ch) as [r0|] eqn:R; destruct (st_rsl (sv_set s2)) as [m|]; cbn [fst snd];
+      try reflexivity; destruct (st_rsl (cl_set c2)); reflexivity.
+  - destruct (ch_rsl ch) as [r0|] eqn:R; destruct (st_rsl (sv_set s2)) as [m|]; cbn [fst snd];
+      try reflexivity; try (destruct (st_rsl (cl_set c2)); reflexivity).
+    rewrite (client_offer_rsl _ _ _ E0 R). reflexivity.
 Qed.
 
 Lemma resumed_after_negotiate t c s o c2 s2 r : negotiate c s = Ok o ->
   resume_legacy t c2 s2 (oc_client o) (oc_server o) = Ok r ->
-  views_agree_but_alpn (rs_client r) (rs_server r) /\
-  (vw_alpn (rs_client r) = vw_alpn (rs_server r) \/
-   (rs_resumed r = true /\ vw_alpn (rs_server r) = None /\ vw_alpn (rs_client r) = vw_alpn (oc_client o))).
+  views_agree_core (rs_client r) (rs_server r).
 Proof.
   intros H R. exact (resume_legacy_agrees _ _ _ _ _ _ (views_agree_core_all _ _ _ H) R).
-Qed.
-
-Lemma resumed_alpn_agrees t c s o c2 s2 r : negotiate c s = Ok o ->
-  resume_legacy t c2 s2 (oc_client o) (oc_server o) = Ok r ->
-  vw_alpn (oc_client o) = None -> vw_alpn (rs_client r) = vw_alpn (rs_server r).
-Proof.
-  intros H R N. destruct (resumed_after_negotiate _ _ _ _ _ _ _ H R) as [_ [A|[_ [B C]]]]; [exact A|].
-  rewrite C, B. exact N.
 Qed.
